@@ -139,7 +139,7 @@ CHECKS = {
                    "message with vsnprintf's text and the line, formatted into a heap buffer of exactly max_line_length bytes, with a naive re-implementation",
         level_note="trusted: the re-implementation of the documented directives in the harness, glibc vsnprintf, ASan; TZ=UTC",
         stages=[rnd("fmt", "c13", 60000, 2000000, essential=["near_limit", "beyond_limit", "empty_rendering", "width_exceeds_room", "ellipsis", "tiny_limit", "big_limit", "format_ends_in_directive",
-                                                                "unknown_directive", "long_format", "empty_message", "trailing_newline", "extended_marker", "rejected_limit", "right_align", "static_directive", "two_targets"])],
+                                                                "unknown_directive", "long_format", "empty_message", "trailing_newline", "extended_marker", "rejected_limit", "right_align", "static_directive", "two_targets", "priority_beyond_trace"])],
         assumptions=["format strings are ASCII", "a line that fills the buffer exactly may or may not carry the ellipsis (the implementation cannot tell it from a cut one)",
                      "the tag stringifier returns a non-NULL string"],
     ),
@@ -153,7 +153,7 @@ CHECKS = {
                    "record field at boundary values with a valid header hash, random byte runs, non-dumps, old-format headers) and every variant is printed: must return, no sanitizer report, no residue",
         level_note="trusted: the printout parser in the harness; mmap is interposed so that every ring mapping is surrounded by 16 MiB PROT_NONE guards (ASan does not police mmap'd memory)",
         stages=[rnd("file", "c15", 12000, 600000, essential=["wrapped_and_dropped", "dump_mid_sequence", "too_long_record", "truncated_file", "header_word_damaged", "chunk_header_damaged",
-                                                               "record_field_damaged", "random_bytes", "not_a_dump", "old_format_header", "hash_valid_but_damaged", "print_partial_then_error", "two_fields_damaged"])],
+                                                               "record_field_damaged", "random_bytes", "not_a_dump", "old_format_header", "hash_valid_but_damaged", "print_partial_then_error", "two_fields_damaged", "printed_text_fills_reader_buffer"])],
         assumptions=["default line length (the reader's buffers are sized by QB_LOG_MAX_LEN)", "function name and tags are functions of the call site (file, line), as the dynamic call-site registry requires",
                      "records whose serialised form is within a few bytes of the 512-byte limit are not generated (stored vs. replaced by the notice is not pinned down by the statement)"],
     ),
@@ -224,7 +224,7 @@ CHECKS = {
                    "three iterations, and whenever a lower level dispatches every busy higher level dispatches in the same iteration",
         level_note="trusted: the workload model (which sources are ready when); at most 11 descriptors are ready at once (epoll_wait harvests 12 events per iteration)",
         stages=[rnd("work", "c10", 60000, 2000000, essential=["all_levels_busy_9_iterations", "higher_level_saturated", "jobs", "descriptors", "timers", "source_joined_midrun", "source_left_midrun",
-                                                                "nine_or_more_on_one_level", "job_only_level", "descriptor_moved_and_removed"])],
+                                                                "nine_or_more_on_one_level", "job_only_level", "descriptor_moved_and_removed", "descriptor_moved_and_kept"])],
         assumptions=["no exact dispatch ratios are checked, only the bounds the statement gives"],
     ),
     "C02": dict(
@@ -233,12 +233,13 @@ CHECKS = {
         design_ref="DESIGN.md section 4, C02",
         technique="stateful model-based property testing: in-process client(s)+server stepped by the case, three FIFO reference queues per connection, readability invariant at quiescence",
         level_text="client(s) and server of a real service run in one thread (the server's poll handlers are the harness's dispatcher, a 'server step' dispatches one ready descriptor chosen by the case; "
-                   "the client uses zero-timeout calls); generated op lists over both transports with sizes around the negotiated maximum, flow control / rate limit changes, fc_enable_max, shrunk "
+                   "the client uses zero-timeout calls, qb_ipcc_sendv_recv included); generated op lists over both transports with sizes around the negotiated maximum, flow control / rate limit changes, fc_enable_max, shrunk "
                    "notification-socket buffers and event bursts are compared with FIFO queues per connection and direction; refused sends must have no effect; at server quiescence a queued event implies a readable descriptor",
         level_note="trusted: the queue model; client and server share one thread, so races inside a single ring operation are C01's subject, and blocking variants of the calls are not exercised here",
         stages=[rnd("msgs", "c02", 40000, 1500000, essential=["refused_then_retried", "two_in_flight", "deferred_notification", "size_at_limit", "size_beyond_limit", "fc_toggled_midburst", "shm", "socket",
                                                                 "event_readable_checked", "response_from_callback", "response_from_outside", "three_clients", "ring_full_refusal", "sendv",
-                                                                "client_send_blocked_then_rescued", "receive_buffer_too_small", "events_drained_under_flow_control"])],
+                                                                "client_send_blocked_then_rescued", "receive_buffer_too_small", "events_drained_under_flow_control",
+                                                                "sendv_recv", "sendv_recv_with_response_waiting"])],
         assumptions=["at most 48 requests of one client are outstanding; the state in which the client blocks on a full client-to-server notification socket is reached by shrinking that socket's buffers, and a helper thread then runs server steps (only while the main thread is stuck inside the send), lifting flow control after 20 ms",
                      "readability of the event descriptor is demanded only when the server's dispatcher has nothing left to do (deferred notifications are re-sent from the server's loop)"],
     ),
@@ -274,7 +275,7 @@ CHECKS = {
                    "is refused by the harness's accept callback (the server would otherwise legitimately allocate what it was asked for)",
         stages=[rnd("hostile", "c06", 40000, 1200000, essential=["handshake_prefix_then_close", "handshake_split_delivery", "handshake_field_mutated", "handshake_garbage", "handshake_oversized",
                                                                   "handshake_silent_peer", "hdr_size_larger_than_sent", "hdr_size_smaller_than_sent", "hdr_size_zero_or_negative", "sent_beyond_maximum",
-                                                                  "shorter_than_header", "shm", "socket", "raw_peer_accepted", "victim_dropped_by_server", "honest_message"])],
+                                                                  "shorter_than_header", "shm", "socket", "raw_peer_accepted", "victim_dropped_by_server", "honest_message", "accepted_client_negotiated_tiny_maximum"])],
         assumptions=["the domain is message contents and handshake bytes; corrupting the shared ring's control words or the notification-byte count is outside the statement's quantifier",
                      "a clean rejection (dropping the offending connection) is a correct outcome"],
     ),
@@ -293,7 +294,8 @@ CHECKS = {
                    "(failures are confirmed by repetition); wall-clock bounds carry a 3 s slack; the empty per-connection directory that the shm client leaves after a server death is not counted (the statement speaks of files)",
         stages=[rnd("death", "c03", 6000, 150000, essential=["A_died_during_handshake", "A_died_connected_idle", "A_died_with_requests_queued", "A_died_mid_request", "A_died_in_disconnect", "A_completed", "A_partial_send", "A_killed_inside_server_callback", "A_closed_asked_for_rerun",
                                                                "B_died_before_ready", "B_died_during_handshake", "B_died_while_client_waited_forever", "B_died_while_client_waited_finite", "B_killed_between_calls",
-                                                               "B_survived", "B_later_call_checked", "B_shm_cleanup_checked", "B_listener_set_up_by_living_parent", "shm", "socket"])],
+                                                               "B_survived", "B_later_call_checked", "B_shm_cleanup_checked", "B_listener_set_up_by_living_parent", "shm", "socket",
+                                                               "A_died_with_requests_queued_under_flow_control"])],
         assumptions=["the dead server has been reaped before the client's disconnect (the client's kill(pid, 0) probe sees a zombie as alive)",
                      "a dying process stops between libc calls, or after a prefix of a send; it does not corrupt shared memory on its way out"],
     ),
